@@ -788,7 +788,12 @@ class Interp:
                     return None
             return None
         res = False
-        for n in T.walk(self.body_of(t)):
+        nodes = list(T.walk(self.body_of(t)))
+        # closures inside the function capture the parameter by name: a store in one of them is a store through it
+        for cn, ct in self.fx.thir.items():
+            if cn.startswith(fn + "::{closure"):
+                nodes += list(T.walk(self.body_of(ct)))
+        for n in nodes:
             k = n.get("k")
             if k in ("Assign", "AssignOp") and base_var(n["lhs"]) == pn:
                 res = True
@@ -928,7 +933,15 @@ class Interp:
         if f[0] == "closure":
             t = self.fx.thir.get(f[1])
             if t is not None and depth < 200:
-                return self.run_inline(t, args, dict(f[2]), depth, closure=True)
+                cenv = dict(f[2])
+                if getattr(self, "havoc_mut_captures", False):
+                    # a closure handed to an iterator adaptor runs once per element: what it has written to a captured variable in
+                    # earlier calls (directly or through a `&mut` it passes on) is unknown when this call starts
+                    body = self.body_of(t)
+                    for n in assigned_vars(body) + self.mut_passed_vars(body):
+                        if n in cenv:
+                            cenv[n] = ("sym", "captured:%s" % n)
+                return self.run_inline(t, args, cenv, depth, closure=True)
         if f[0] == "fn" and f[1]:
             return self.call_named(f[1], args, node, depth)
         self.trace.append(("call", "<indirect>", tuple([f] + list(args)), node.get("sp")))
